@@ -2,6 +2,7 @@
    Property theorems only; proofs in AggProofs.v and TopkProofs.v. Partial: see the note at the end. *)
 From Coq Require Import List ZArith NArith Bool.
 From Verif Require Import Base Agg AggProofs Topk TopkProofs.
+From Verif Require Grid Compose AggEnd.
 Import ListNotations.
 Close Scope Z_scope.
 
@@ -44,6 +45,35 @@ Example C04_example :
   map (group_labels false [2%N; 3%N]) [l1; l2; l3] = [[(2, 9)]; []; [(2, 9)]]%N /\
   fst (assign_groups (map (group_labels true [2%N]) [l1; l2; l3]) []) = [0; 0; 1].
 Proof. repeat split; vm_compute; reflexivity. Qed.
+
+(* End to end for  count [by|without] (labels) (selector): for every shard
+   count, batch size and window, the engine - sharded, batched selector feeding
+   the aggregation's table, which is reused from step to step - produces one
+   list of groups per grid step, and at every step the groups and their counts
+   are exactly the reference's: one output per distinct grouping key among the
+   samples present at the step, with the number of such samples. *)
+Theorem C04_count_over_selector :
+  forall (without : bool) (grouping : list N) (slabels : list labels) (sers : list (list sample)) (off : Z),
+  length slabels = length sers ->
+  forall (cf : Compose.cfg) (w : window),
+  (0 < Compose.c_shards cf) -> (0 < Compose.c_batch cf) -> (0 <= Compose.c_lookback cf)%Z -> wf_window w ->
+  Forall sorted_ts sers ->
+  exists outs,
+    AggEnd.engine_count without grouping slabels sers off cf w = outs /\ map fst outs = Grid.grid w /\
+    forall t out, In (t, out) outs ->
+      forall m n, In (m, n) out <->
+                  In (m, n) (AggEnd.reference_count without grouping slabels sers off (Compose.c_lookback cf) t).
+Proof. exact AggEnd.count_over_selector_matches_reference. Qed.
+Print Assumptions C04_count_over_selector.
+
+(* non-vacuity: count by (a) over three series, two shards, batches of two; 1 = a *)
+Example C04_count_example :
+  let slabels := [[(0, 10); (1, 20); (2, 31)]; [(0, 10); (1, 20); (2, 32)]; [(0, 10); (1, 21); (2, 31)]]%N in
+  let sers := [[mkS 950 (Some 2); mkS 1040 (Some 3)]; [mkS 990 (Some 5)]; [mkS 1000 (Some 7)]]%Z in
+  AggEnd.engine_count false [1%N] slabels sers 0%Z (Compose.mkCfg 2 2 60%Z) (mkW 1000 1090 30)%Z =
+  [(1000%Z, [([(1, 20)]%N, 2); ([(1, 21)]%N, 1)]); (1030%Z, [([(1, 20)]%N, 1); ([(1, 21)]%N, 1)]);
+   (1060%Z, [([(1, 20)]%N, 1); ([(1, 21)]%N, 1)]); (1090%Z, [([(1, 20)]%N, 1)])].
+Proof. vm_compute. reflexivity. Qed.
 
 (* topk / bottomk (Topk.v models kAggregate.aggregate; compared with the real
    operator on every run). For any comparison that is a strict weak order on
